@@ -13,7 +13,7 @@ RULE = (
     "sections x ny-per-section x symmetry/root_section x taper/sweep/span menus for the multi-section generator, unify_mesh and "
     "GeomMultiUnification; non-trivial = distinct generated meshes"
 )
-ASSUMPTIONS = ["finite alphabets for the real parameters; num_x<=6, num_y<=11, <=3 sections", "NumPy trusted"]
+ASSUMPTIONS = ["finite alphabets for the real parameters; num_x<=6, num_y<=11 in the complete product (single production sizes up to 11x51 / 2x201), <=4 sections", "NumPy trusted"]
 BOUND = {"quick": "num_x<=4, num_y<=7 exhaustively + production sizes 11x51, 7x101, 2x201, 9x21", "thorough": "num_x<=6, num_y<=11"}
 TOL = 1e-12
 
